@@ -62,6 +62,10 @@ PRELUDE = (' '.join('assign {} {}'.format(k, lit(v) if not isinstance(v, str)
            + ' ' + ' '.join('{} {}'.format(k, lit(v)) for k, v in REGS.items())
            + ' define twice with x begin return { x * 2 } end'
            + ' define label with x begin return who end'
+           # routines that write output themselves (used as arguments)
+           + ' define shout with x begin printf "<{x}>" return { x * 2 } end'
+           + ' define note with x begin printf "note" return x end'
+           + ' define say with x begin print "say" print x return { x + 1 } end'
            + ' assign yes { 1 < 2 } assign no { 2 < 1 } ')
 VARS_ALL = dict(VARS, yes=True, no=False)
 DEVICES = [dict(label='Top', group='G', location='P'),
@@ -78,9 +82,26 @@ class Tee:
         pass
 
 
+SIDE = []      # texts written by calls while the current value was evaluated
+
+
 def value(rng):
-    """returns (script text of an rvalue, python value)"""
-    k = rng.randrange(13)
+    """returns (script text of an rvalue, python value); output written by
+    routines called on the way is appended to SIDE"""
+    k = rng.randrange(16)
+    if k == 13:
+        x = rng.choice([3, 4, 10])
+        SIDE.append(('printf', '<{}>'.format(x)))
+        return '[ shout {} ]'.format(x), x * 2
+    if k == 14:
+        x = rng.choice([1, 5])
+        SIDE.append(('printf', 'note'))
+        return '[ note {} ]'.format(x), x
+    if k == 15:
+        x = rng.choice([2, 6])
+        SIDE.append(('print', 'say'))
+        SIDE.append(('print', str(x)))
+        return '{{ [ say {} ] * 1 }}'.format(x), x + 1
     if k == 0:
         v = rng.choice([0, 1, 7, 42, 65535, 100000])
         return lit(v), v
@@ -192,7 +213,24 @@ def build(rng):
     segs = ['']
     pending = False
     outputs = 0
+    def emit(text, newline=False):
+        nonlocal pending
+        segs[-1] += (' ' if pending is True else
+                     '\x00' if pending == 'opt' else '') + text
+        pending = True
+        if newline:
+            segs[-1] += '\n'
+            pending = False
+
+    def side():
+        nonlocal pending
+        for kind, text in SIDE:
+            emit(text)
+            if kind == 'printf' and text.endswith('\n'):
+                pending = 'opt'
+        SIDE.clear()
     for _ in range(n):
+        SIDE.clear()
         r = rng.random()
         if r < 0.15:
             stmts.append(rng.choice(['set "Top"', 'on "B"', 'off all',
@@ -203,9 +241,8 @@ def build(rng):
         if r < 0.45:
             t, v = value(rng)
             stmts.append('print ' + t)
-            segs[-1] += (' ' if pending is True else
-                         '\x00' if pending == 'opt' else '') + str(v)
-            pending = True
+            side()
+            emit(str(v))
         elif r < 0.65:
             if rng.random() < 0.2:
                 stmts.append('println')
@@ -213,8 +250,8 @@ def build(rng):
             else:
                 t, v = value(rng)
                 stmts.append('println ' + t)
-                segs[-1] += (' ' if pending is True else
-                             '\x00' if pending == 'opt' else '') + str(v) + '\n'
+                side()
+                emit(str(v), newline=True)
             pending = False
         else:
             pf = printf_stmt(rng)
@@ -223,8 +260,8 @@ def build(rng):
                 continue
             src, text = pf
             stmts.append(src)
-            segs[-1] += (' ' if pending is True else
-                         '\x00' if pending == 'opt' else '') + text
+            side()
+            emit(text)
             pending = 'opt' if text.endswith('\n') else True
     # a valueless println directly followed by something value-like would
     # swallow it: keep scripts unambiguous
